@@ -61,6 +61,9 @@ structure TInv (P : Preset) (T : Keys) (te : TermEnc) (R : Keys) : Prop where
   recn : Rec te.names.lookup.data R.n
   recp : Rec te.prefixes.lookup.data R.p
   recd : Rec te.datatypes.lookup.data R.d
+  pinn : PinOK te.names.lookup R.n
+  pinp : PinOK te.prefixes.lookup R.p
+  pind : PinOK te.datatypes.lookup R.d
   sub : R.sub T
   p0 : P.maxPrefixes = 0 → te.prefixes.lastReused = 0
 
@@ -255,21 +258,53 @@ theorem cons_sub {k : String} {R T : List String} (hk : k ∈ T) (hs : ∀ x ∈
   · exact hk
   · exact hs x hx
 
-theorem iriIndices_sim {P : Preset} {T : Keys} {te : TermEnc} {R : Keys} (hf : TFits P T)
+theorem iriIndices_err_noprefix {te : TermEnc} {iri : String}
+    (h : te.prefixes.lookup.maxSize = 0) {err : PyErr}
+    (hne : te.names.entryIndex iri = .error err) :
+    te.iriIndices iri = (te, .error err) := by
+  have hb : (te.prefixes.lookup.maxSize != 0) = false := by simp [h]
+  unfold TermEnc.iriIndices
+  simp only [hb, Bool.false_eq_true, if_false, hne]
+
+theorem iriIndices_err_prefix1 {te : TermEnc} {iri : String}
+    (h : te.prefixes.lookup.maxSize ≠ 0) {err : PyErr}
+    (hpe : te.prefixes.entryIndex (splitIri iri).1 = .error err) :
+    te.iriIndices iri = (te, .error err) := by
+  have hb : (te.prefixes.lookup.maxSize != 0) = true := by simp [h]
+  unfold TermEnc.iriIndices
+  simp only [hb, if_true, hpe]
+
+theorem iriIndices_err_prefix2 {te : TermEnc} {iri : String}
+    (h : te.prefixes.lookup.maxSize ≠ 0) {pe1 : LookupEnc} {poid} {err : PyErr}
+    (hpe : te.prefixes.entryIndex (splitIri iri).1 = .ok (pe1, poid))
+    (hne : te.names.entryIndex (splitIri iri).2 = .error err) :
+    te.iriIndices iri = ({ te with prefixes := pe1 }, .error err) := by
+  have hb : (te.prefixes.lookup.maxSize != 0) = true := by simp [h]
+  unfold TermEnc.iriIndices
+  simp only [hb, if_true, hpe, hne]
+
+/-- General form: no sizing hypothesis is assumed, `F` stands for "the row fits". Either the writer
+    refuses (only possible when `F` fails) or the step is simulated. -/
+theorem iriIndices_sim_gen {F : Prop} {P : Preset} {T : Keys} {te : TermEnc} {R : Keys}
+    (hpn : 0 < P.maxNames) (hf : F → TFits P T)
     (inv : TInv P T te R) (iri : String)
     (hkn : nameKey (P.maxPrefixes != 0) iri ∈ T.n) (hkp : prefixKey iri ∈ T.p) :
+    (¬ F ∧ ∃ te' e, te.iriIndices iri = (te', .error e)) ∨
     ∃ te' rows p n R', te.iriIndices iri = (te', .ok (rows, p, n)) ∧ Sim P T te R te' rows R' ∧
       ∀ ss, AgreeT R' te' ss → Spec.resolveIri (setLR ss te) p n = .ok (setLR ss te', iri) := by
   by_cases hup : P.maxPrefixes = 0
   · -- prefix table disabled: the whole IRI is the name key
     have hkn' : iri ∈ T.n := by simpa [nameKey, hup] using hkn
-    obtain ⟨ne1, noid, ne2, nid, hne, hnt, hnu, hnla, hnres⟩ :=
-      useName (k := iri) inv.wfn (by rw [inv.maxn]; exact hf.posn) inv.recn
-        (cons_sub hkn' inv.sub.1) (by rw [inv.maxn]; exact hf.fitn)
+    rcases useName (F := F) (k := iri) inv.wfn (by rw [inv.maxn]; exact hpn) inv.recn inv.pinn
+        (cons_sub hkn' inv.sub.1) (by rw [inv.maxn]; exact fun h => (hf h).fitn) with
+      ⟨hnF, herr⟩ | ⟨ne1, noid, ne2, nid, hne, hnt, hnu, hnla, hnres⟩
+    · exact Or.inl ⟨hnF, _, _, iriIndices_err_noprefix (by rw [inv.maxp]; exact hup) herr⟩
+    right
     refine ⟨{ te with names := ne2 }, nameEntryRows noid iri, 0, nid, { R with n := iri :: R.n },
       iriIndices_eq_noprefix (by rw [inv.maxp]; exact hup) hne hnt, ?_, ?_⟩
     · refine ⟨⟨hnu.wf, inv.wfp, inv.wfd, by rw [hnu.max]; exact inv.maxn, inv.maxp, inv.maxd,
-          hnu.recent, inv.recp, inv.recd, ⟨cons_sub hkn' inv.sub.1, inv.sub.2.1, inv.sub.2.2⟩, inv.p0⟩,
+          hnu.recent, inv.recp, inv.recd, hnu.pinok, inv.pinp, inv.pind,
+          ⟨cons_sub hkn' inv.sub.1, inv.sub.2.1, inv.sub.2.2⟩, inv.p0⟩,
         ⟨fun k h => List.mem_cons_of_mem _ h, fun _ h => h, fun _ h => h⟩,
         ⟨hnu.pres.mono (fun k h => List.mem_cons_of_mem _ h), Pres.refl _ _, Pres.refl _ _⟩,
         Ingests.names hnu.mirror⟩
@@ -287,17 +322,20 @@ theorem iriIndices_sim {P : Preset} {T : Keys} {te : TermEnc} {R : Keys} (hf : T
   · -- prefix table enabled
     have hpos : 0 < P.maxPrefixes := Nat.pos_of_ne_zero hup
     have hkn' : (splitIri iri).2 ∈ T.n := by simpa [nameKey, hup] using hkn
-    obtain ⟨pe1, poid, pe2, pid, hpe, hpt, hpu, hpres⟩ :=
-      usePrefix (k := (splitIri iri).1) inv.wfp (by rw [inv.maxp]; exact hpos) inv.recp
-        (cons_sub hkp inv.sub.2.1) (by rw [inv.maxp]; exact hf.fitp hpos)
-    obtain ⟨ne1, noid, ne2, nid, hne, hnt, hnu, hnla, hnres⟩ :=
-      useName (k := (splitIri iri).2) inv.wfn (by rw [inv.maxn]; exact hf.posn) inv.recn
-        (cons_sub hkn' inv.sub.1) (by rw [inv.maxn]; exact hf.fitn)
+    rcases usePrefix (F := F) (k := (splitIri iri).1) inv.wfp (by rw [inv.maxp]; exact hpos) inv.recp inv.pinp
+        (cons_sub hkp inv.sub.2.1) (by rw [inv.maxp]; exact fun h => (hf h).fitp hpos) with
+      ⟨hnF, herr⟩ | ⟨pe1, poid, pe2, pid, hpe, hpt, hpu, hpres⟩
+    · exact Or.inl ⟨hnF, _, _, iriIndices_err_prefix1 (by rw [inv.maxp]; exact hup) herr⟩
+    rcases useName (F := F) (k := (splitIri iri).2) inv.wfn (by rw [inv.maxn]; exact hpn) inv.recn inv.pinn
+        (cons_sub hkn' inv.sub.1) (by rw [inv.maxn]; exact fun h => (hf h).fitn) with
+      ⟨hnF, herr⟩ | ⟨ne1, noid, ne2, nid, hne, hnt, hnu, hnla, hnres⟩
+    · exact Or.inl ⟨hnF, _, _, iriIndices_err_prefix2 (by rw [inv.maxp]; exact hup) hpe herr⟩
+    right
     refine ⟨{ te with names := ne2, prefixes := pe2 }, _, pid, nid,
       { R with n := (splitIri iri).2 :: R.n, p := (splitIri iri).1 :: R.p },
       iriIndices_eq_prefix (by rw [inv.maxp]; exact hup) hpe hne hpt hnt, ?_, ?_⟩
     · refine ⟨⟨hnu.wf, hpu.wf, inv.wfd, by rw [hnu.max]; exact inv.maxn, by rw [hpu.max]; exact inv.maxp,
-          inv.maxd, hnu.recent, hpu.recent, inv.recd,
+          inv.maxd, hnu.recent, hpu.recent, inv.recd, hnu.pinok, hpu.pinok, inv.pind,
           ⟨cons_sub hkn' inv.sub.1, cons_sub hkp inv.sub.2.1, inv.sub.2.2⟩,
           fun h => absurd h hup⟩,
         ⟨fun k h => List.mem_cons_of_mem _ h, fun k h => List.mem_cons_of_mem _ h, fun _ h => h⟩,
@@ -318,16 +356,27 @@ theorem iriIndices_sim {P : Preset} {T : Keys} {te : TermEnc} {R : Keys} (hf : T
       rw [hn]
       simp only [splitIri_append]
 
-theorem literal_sim {P : Preset} {T : Keys} {te : TermEnc} {R : Keys} (hf : TFits P T)
+theorem iriIndices_sim {P : Preset} {T : Keys} {te : TermEnc} {R : Keys} (hf : TFits P T)
+    (inv : TInv P T te R) (iri : String)
+    (hkn : nameKey (P.maxPrefixes != 0) iri ∈ T.n) (hkp : prefixKey iri ∈ T.p) :
+    ∃ te' rows p n R', te.iriIndices iri = (te', .ok (rows, p, n)) ∧ Sim P T te R te' rows R' ∧
+      ∀ ss, AgreeT R' te' ss → Spec.resolveIri (setLR ss te) p n = .ok (setLR ss te', iri) := by
+  rcases iriIndices_sim_gen (F := True) hf.posn (fun _ => hf) inv iri hkn hkp with ⟨h, _⟩ | h
+  · exact absurd trivial h
+  · exact h
+
+theorem literal_sim_gen {F : Prop} {P : Preset} {T : Keys} {te : TermEnc} {R : Keys} (hf : F → TFits P T)
     (inv : TInv P T te R) (lex : String) (lang dt : Option String)
     (hwf : (Term.lit lex lang dt).WF = true) (hk : ∀ k ∈ (Term.lit lex lang dt).dts, k ∈ T.d)
     (inG : Bool) :
+    (¬ F ∧ ∃ te' e, te.literal lang dt = (te', .error e)) ∨
     ∃ te' rows kind R', te.literal lang dt = (te', .ok (rows, kind)) ∧ Sim P T te R te' rows R' ∧
       ∀ ss, AgreeT R' te' ss →
         Spec.resolveTerm inG (setLR ss te) (.literal lex kind)
           = .ok (setLR ss te', (Term.lit lex lang dt).norm) := by
   cases dt with
   | none =>
+    right
     cases lang with
     | none =>
       refine ⟨te, [], .plain, R, by simp [TermEnc.literal], Sim.refl inv, ?_⟩
@@ -345,31 +394,54 @@ theorem literal_sim {P : Preset} {T : Keys} {te : TermEnc} {R : Keys} (hf : TFit
     | none =>
       have hd : (d != "") = true := by simpa [Term.WF] using hwf
       by_cases hx : d = XSD_STRING
-      · refine ⟨te, [], .plain, R, by simp [TermEnc.literal, hx], Sim.refl inv, ?_⟩
+      · right
+        refine ⟨te, [], .plain, R, by simp [TermEnc.literal, hx], Sim.refl inv, ?_⟩
         intro ss _
         simp [Spec.resolveTerm, Term.norm, hx]
       · have hx' : (d != XSD_STRING) = true := by simpa using hx
         have hdT : d ∈ T.d := hk d (by simp [Term.dts, hd, hx'])
-        have hposd : 0 < P.maxDatatypes := hf.posd (List.ne_nil_of_mem hdT)
-        obtain ⟨de1, doid, de2, did, hde, hdt, hdu, hdne, hdres⟩ :=
-          useDatatype (k := d) inv.wfd (by rw [inv.maxd]; exact hposd) inv.recd
-            (cons_sub hdT inv.sub.2.2) (by rw [inv.maxd]; exact hf.fitd)
-        refine ⟨{ te with datatypes := de2 }, dtEntryRows doid d, .dt did, { R with d := d :: R.d }, ?_, ?_, ?_⟩
+        by_cases hposd : 0 < P.maxDatatypes
         · have hm : (te.datatypes.lookup.maxSize == 0) = false := by rw [inv.maxd]; simp; omega
-          have hdne' : (did != 0) = true := by simpa using hdne
-          simp only [TermEnc.literal, hd, hx', Bool.and_self, if_true, hm, hde, hdt, hdne', dtEntryRows]
-          cases doid <;> rfl
-        · exact ⟨⟨inv.wfn, inv.wfp, hdu.wf, inv.maxn, inv.maxp, by rw [hdu.max]; exact inv.maxd,
-              inv.recn, inv.recp, hdu.recent, ⟨inv.sub.1, inv.sub.2.1, cons_sub hdT inv.sub.2.2⟩, inv.p0⟩,
-            ⟨fun _ h => h, fun _ h => h, fun k h => List.mem_cons_of_mem _ h⟩,
-            ⟨Pres.refl _ _, Pres.refl _ _, hdu.pres.mono (fun k h => List.mem_cons_of_mem _ h)⟩,
-            Ingests.datatypes hdu.mirror⟩
-        · intro ss ha
-          have hr := hdres ss.datatypes ha.2.2
-          have hxb : (d == XSD_STRING) = false := by simpa using hx
-          simp only [Spec.resolveTerm, setLR, bind, Except.bind, pure, Except.pure, Term.norm, hxb]
-          rw [hr]
-          rfl
+          rcases useDatatype (F := F) (k := d) inv.wfd (by rw [inv.maxd]; exact hposd) inv.recd inv.pind
+              (cons_sub hdT inv.sub.2.2) (by rw [inv.maxd]; exact fun h => (hf h).fitd) with
+            ⟨hnF, herr⟩ | ⟨de1, doid, de2, did, hde, hdt, hdu, hdne, hdres⟩
+          · refine Or.inl ⟨hnF, te, .conformance, ?_⟩
+            simp only [TermEnc.literal, hd, hx', Bool.and_self, if_true, hm, herr]
+            rfl
+          right
+          refine ⟨{ te with datatypes := de2 }, dtEntryRows doid d, .dt did, { R with d := d :: R.d }, ?_, ?_, ?_⟩
+          · have hdne' : (did != 0) = true := by simpa using hdne
+            simp only [TermEnc.literal, hd, hx', Bool.and_self, if_true, hm, hde, hdt, hdne', dtEntryRows]
+            cases doid <;> rfl
+          · exact ⟨⟨inv.wfn, inv.wfp, hdu.wf, inv.maxn, inv.maxp, by rw [hdu.max]; exact inv.maxd,
+                inv.recn, inv.recp, hdu.recent, inv.pinn, inv.pinp, hdu.pinok,
+                ⟨inv.sub.1, inv.sub.2.1, cons_sub hdT inv.sub.2.2⟩, inv.p0⟩,
+              ⟨fun _ h => h, fun _ h => h, fun k h => List.mem_cons_of_mem _ h⟩,
+              ⟨Pres.refl _ _, Pres.refl _ _, hdu.pres.mono (fun k h => List.mem_cons_of_mem _ h)⟩,
+              Ingests.datatypes hdu.mirror⟩
+          · intro ss ha
+            have hr := hdres ss.datatypes ha.2.2
+            have hxb : (d == XSD_STRING) = false := by simpa using hx
+            simp only [Spec.resolveTerm, setLR, bind, Except.bind, pure, Except.pure, Term.norm, hxb]
+            rw [hr]
+            rfl
+        · -- datatype table disabled: `JellyConformanceError`
+          left
+          refine ⟨fun hF => hposd ((hf hF).posd (List.ne_nil_of_mem hdT)), te, .conformance, ?_⟩
+          have hm : (te.datatypes.lookup.maxSize == 0) = true := by rw [inv.maxd]; simp; omega
+          simp only [TermEnc.literal, hd, hx', Bool.and_self, if_true, hm]
+
+theorem literal_sim {P : Preset} {T : Keys} {te : TermEnc} {R : Keys} (hf : TFits P T)
+    (inv : TInv P T te R) (lex : String) (lang dt : Option String)
+    (hwf : (Term.lit lex lang dt).WF = true) (hk : ∀ k ∈ (Term.lit lex lang dt).dts, k ∈ T.d)
+    (inG : Bool) :
+    ∃ te' rows kind R', te.literal lang dt = (te', .ok (rows, kind)) ∧ Sim P T te R te' rows R' ∧
+      ∀ ss, AgreeT R' te' ss →
+        Spec.resolveTerm inG (setLR ss te) (.literal lex kind)
+          = .ok (setLR ss te', (Term.lit lex lang dt).norm) := by
+  rcases literal_sim_gen (F := True) (fun _ => hf) inv lex lang dt hwf hk inG with ⟨h, _⟩ | h
+  · exact absurd trivial h
+  · exact h
 
 theorem termKeys_quoted {up : Bool} {s p o : Term} {T : Keys} (h : (termKeys up (.quoted s p o)).sub T) :
     (termKeys up s).sub T ∧ (termKeys up p).sub T ∧ (termKeys up o).sub T := by
@@ -381,9 +453,10 @@ theorem termKeys_quoted {up : Bool} {s p o : Term} {T : Keys} (h : (termKeys up 
           fun k hk => h3 k (Or.inl (Or.inr hk))⟩,
          ⟨fun k hk => h1 k (Or.inr hk), fun k hk => h2 k (Or.inr hk), fun k hk => h3 k (Or.inr hk)⟩⟩
 
-theorem spo_sim {P : Preset} {T : Keys} (hf : TFits P T) :
+theorem spo_sim_gen {F : Prop} {P : Preset} {T : Keys} (hpn : 0 < P.maxNames) (hf : F → TFits P T) :
     ∀ (t : Term) (te : TermEnc) (R : Keys), t.WF = true → TInv P T te R →
       (termKeys (P.maxPrefixes != 0) t).sub T →
+      (¬ F ∧ ∃ te' e, te.spo t = (te', .error e)) ∨
       ∃ te' rows w R', te.spo t = (te', .ok (rows, w)) ∧ Sim P T te R te' rows R' ∧
         ∀ ss, AgreeT R' te' ss →
           Spec.resolveTerm false (setLR ss te) w = .ok (setLR ss te', t.norm) := by
@@ -391,27 +464,37 @@ theorem spo_sim {P : Preset} {T : Keys} (hf : TFits P T) :
   induction t with
   | iri s =>
     intro te R _ inv hk
-    obtain ⟨te', rows, p, n, R', heq, hsim, hres⟩ := iriIndices_sim hf inv s
-      (hk.1 _ (by simp [termKeys, Term.iris])) (hk.2.1 _ (by simp [termKeys, Term.iris]))
+    rcases iriIndices_sim_gen hpn hf inv s
+      (hk.1 _ (by simp [termKeys, Term.iris])) (hk.2.1 _ (by simp [termKeys, Term.iris])) with
+      ⟨hnF, te', e, herr⟩ | ⟨te', rows, p, n, R', heq, hsim, hres⟩
+    · exact Or.inl ⟨hnF, te', e, by simp only [TermEnc.spo, herr]⟩
+    right
     refine ⟨te', rows, .iri p n, R', by simp only [TermEnc.spo, heq], hsim, ?_⟩
     intro ss ha
     simp only [Spec.resolveTerm, hres ss ha, bind, Except.bind, pure, Except.pure, Term.norm]
   | bnode b =>
     intro te R _ inv _
+    right
     refine ⟨te, [], .bnode b, R, by simp only [TermEnc.spo], Sim.refl inv, ?_⟩
     intro ss _
     simp only [Spec.resolveTerm, Term.norm]
   | lit lex lang dt =>
     intro te R hwf inv hk
-    obtain ⟨te', rows, kind, R', heq, hsim, hres⟩ := literal_sim hf inv lex lang dt hwf hk.2.2 false
-    exact ⟨te', rows, .literal lex kind, R', by simp only [TermEnc.spo, heq], hsim, hres⟩
+    rcases literal_sim_gen hf inv lex lang dt hwf hk.2.2 false with
+      ⟨hnF, te', e, herr⟩ | ⟨te', rows, kind, R', heq, hsim, hres⟩
+    · exact Or.inl ⟨hnF, te', e, by simp only [TermEnc.spo, herr]⟩
+    exact Or.inr ⟨te', rows, .literal lex kind, R', by simp only [TermEnc.spo, heq], hsim, hres⟩
   | quoted s p o ihs ihp iho =>
     intro te R hwf inv hk
     simp only [Term.WF, Bool.and_eq_true] at hwf
     obtain ⟨ks, kp, ko⟩ := termKeys_quoted hk
-    obtain ⟨te1, r1, ws, R1, e1, s1, res1⟩ := ihs te R hwf.1.1 inv ks
-    obtain ⟨te2, r2, wp, R2, e2, s2, res2⟩ := ihp te1 R1 hwf.1.2 s1.inv kp
-    obtain ⟨te3, r3, wo, R3, e3, s3, res3⟩ := iho te2 R2 hwf.2 s2.inv ko
+    rcases ihs te R hwf.1.1 inv ks with ⟨hnF, te', e, herr⟩ | ⟨te1, r1, ws, R1, e1, s1, res1⟩
+    · exact Or.inl ⟨hnF, te', e, by simp only [TermEnc.spo, herr]⟩
+    rcases ihp te1 R1 hwf.1.2 s1.inv kp with ⟨hnF, te', e, herr⟩ | ⟨te2, r2, wp, R2, e2, s2, res2⟩
+    · exact Or.inl ⟨hnF, te', e, by simp only [TermEnc.spo, e1, herr]⟩
+    rcases iho te2 R2 hwf.2 s2.inv ko with ⟨hnF, te', e, herr⟩ | ⟨te3, r3, wo, R3, e3, s3, res3⟩
+    · exact Or.inl ⟨hnF, te', e, by simp only [TermEnc.spo, e1, e2, herr]⟩
+    right
     refine ⟨te3, r1 ++ r2 ++ r3, .triple (some ws) (some wp) (some wo), R3,
       by simp only [TermEnc.spo, e1, e2, e3], (s1.trans s2).trans s3, ?_⟩
     intro ss ha
@@ -422,31 +505,59 @@ theorem spo_sim {P : Preset} {T : Keys} (hf : TFits P T) :
   | defaultGraph => intro te R hwf; simp [Term.WF] at hwf
   | unsupported => intro te R hwf; simp [Term.WF] at hwf
 
-theorem graph_sim {P : Preset} {T : Keys} (hf : TFits P T) (t : Term) (te : TermEnc) (R : Keys)
+theorem spo_sim {P : Preset} {T : Keys} (hf : TFits P T) :
+    ∀ (t : Term) (te : TermEnc) (R : Keys), t.WF = true → TInv P T te R →
+      (termKeys (P.maxPrefixes != 0) t).sub T →
+      ∃ te' rows w R', te.spo t = (te', .ok (rows, w)) ∧ Sim P T te R te' rows R' ∧
+        ∀ ss, AgreeT R' te' ss →
+          Spec.resolveTerm false (setLR ss te) w = .ok (setLR ss te', t.norm) := by
+  intro t te R hwf inv hk
+  rcases spo_sim_gen (F := True) hf.posn (fun _ => hf) t te R hwf inv hk with ⟨h, _⟩ | h
+  · exact absurd trivial h
+  · exact h
+
+theorem graph_sim_gen {F : Prop} {P : Preset} {T : Keys} (hpn : 0 < P.maxNames) (hf : F → TFits P T)
+    (t : Term) (te : TermEnc) (R : Keys)
     (hwf : t.WFGraph = true) (inv : TInv P T te R) (hk : (termKeys (P.maxPrefixes != 0) t).sub T) :
+    (¬ F ∧ ∃ te' e, te.graph t = (te', .error e)) ∨
     ∃ te' rows w R', te.graph t = (te', .ok (rows, w)) ∧ Sim P T te R te' rows R' ∧
       ∀ ss, AgreeT R' te' ss →
         Spec.resolveTerm true (setLR ss te) w = .ok (setLR ss te', t.norm) := by
   cases t with
   | iri s =>
-    obtain ⟨te', rows, p, n, R', heq, hsim, hres⟩ := iriIndices_sim hf inv s
-      (hk.1 _ (by simp [termKeys, Term.iris])) (hk.2.1 _ (by simp [termKeys, Term.iris]))
+    rcases iriIndices_sim_gen hpn hf inv s
+      (hk.1 _ (by simp [termKeys, Term.iris])) (hk.2.1 _ (by simp [termKeys, Term.iris])) with
+      ⟨hnF, te', e, herr⟩ | ⟨te', rows, p, n, R', heq, hsim, hres⟩
+    · exact Or.inl ⟨hnF, te', e, by simp only [TermEnc.graph, herr]⟩
+    right
     refine ⟨te', rows, .iri p n, R', by simp only [TermEnc.graph, heq], hsim, ?_⟩
     intro ss ha
     simp only [Spec.resolveTerm, hres ss ha, bind, Except.bind, pure, Except.pure, Term.norm]
   | bnode b =>
+    right
     refine ⟨te, [], .bnode b, R, by simp only [TermEnc.graph], Sim.refl inv, ?_⟩
     intro ss _
     simp only [Spec.resolveTerm, Term.norm]
   | lit lex lang dt =>
-    obtain ⟨te', rows, kind, R', heq, hsim, hres⟩ := literal_sim hf inv lex lang dt hwf hk.2.2 true
-    exact ⟨te', rows, .literal lex kind, R', by simp only [TermEnc.graph, heq], hsim, hres⟩
+    rcases literal_sim_gen hf inv lex lang dt hwf hk.2.2 true with
+      ⟨hnF, te', e, herr⟩ | ⟨te', rows, kind, R', heq, hsim, hres⟩
+    · exact Or.inl ⟨hnF, te', e, by simp only [TermEnc.graph, herr]⟩
+    exact Or.inr ⟨te', rows, .literal lex kind, R', by simp only [TermEnc.graph, heq], hsim, hres⟩
   | quoted s p o => simp [Term.WFGraph] at hwf
   | defaultGraph =>
+    right
     refine ⟨te, [], .defaultGraph, R, by simp only [TermEnc.graph], Sim.refl inv, ?_⟩
     intro ss _
     simp only [Spec.resolveTerm, if_true, Term.norm]
   | unsupported => simp [Term.WFGraph] at hwf
 
+theorem graph_sim {P : Preset} {T : Keys} (hf : TFits P T) (t : Term) (te : TermEnc) (R : Keys)
+    (hwf : t.WFGraph = true) (inv : TInv P T te R) (hk : (termKeys (P.maxPrefixes != 0) t).sub T) :
+    ∃ te' rows w R', te.graph t = (te', .ok (rows, w)) ∧ Sim P T te R te' rows R' ∧
+      ∀ ss, AgreeT R' te' ss →
+        Spec.resolveTerm true (setLR ss te) w = .ok (setLR ss te', t.norm) := by
+  rcases graph_sim_gen (F := True) hf.posn (fun _ => hf) t te R hwf inv hk with ⟨h, _⟩ | h
+  · exact absurd trivial h
+  · exact h
 
 end Jelly
